@@ -126,7 +126,8 @@ type H1Cfg struct {
 	CancelSitePlus    uint64            `json:"cancel_site_plus,omitempty"`
 	StartOffsetNs     int64             `json:"start_offset,omitempty"`
 	FileYAML          string            `json:"file_yaml,omitempty"`
-	SlowOutputNs      int64             `json:"slow_output,omitempty"` // every progress line takes this long to write
+	OutputFailAtNs    int64             `json:"output_fail_at,omitempty"` // the terminal's stdout starts failing (EIO) this long after the run was started
+	SlowOutputNs      int64             `json:"slow_output,omitempty"`    // every progress line takes this long to write
 	// expectations computed by the generator (not by reading f1): tick interval / per-tick rate when constant & undistributed
 	TickNs   int64 `json:"tick,omitempty"`
 	TickRate int   `json:"tick_rate,omitempty"`
@@ -714,6 +715,11 @@ func (h h1) Gen(prop, tier string, r *simrt.Rng) (any, simrt.Config) {
 		if prop == "C05" && r.Intn(5) == 0 {
 			c.SlowOutputNs = 1500*int64(time.Millisecond) + 41 // a terminal that blocks for longer than a progress period
 		}
+	}
+	if prop == "C05" && c.Driver == "api" && r.Intn(12) == 0 {
+		// the terminal goes away in the middle of an interactive run: printing fails from then on, the run still ends
+		c.Interactive, c.Verbose = true, false
+		c.OutputFailAtNs = r.Int63n(c.MaxDurationNs) + 1
 	}
 	if r.Intn(8) == 0 {
 		c.StartOffsetNs = r.Int63n(int64(48 * time.Hour))
